@@ -279,6 +279,39 @@ Section Knot.
     rewrite H, H3, H4. reflexivity.
   Qed.
 
+  (* the classes of the C04 theorems: __init__ forms that do not depend on the allow_custom switch and wrap nothing *)
+  Definition class_oki (c : cls) : bool :=
+    nodupb (map sname (cslots c)) && forallb (slot_ok vr nestable) (cslots c) && (init_ok vr (cinit c) || ind_ok c) &&
+    (negb (is_sco21 c) ||
+     match slot_of c (u "id") with Some sl => match sdef sl with DUuid4 => true | _ => false end | None => false end).
+
+  Definition closed_oki : bool :=
+    forallb (fun cid0 => match find_class (wclasses w) cid0 with Some c => class_oki c | None => false end) ids.
+
+  Lemma closed_ok_oki : closed_ok = true -> closed_oki = true.
+  Proof.
+    unfold closed_ok, closed_oki. intros H. rewrite forallb_forall in *. intros x Hx. specialize (H x Hx).
+    destruct (find_class (wclasses w) x) as [c |]; [| discriminate]. unfold class_ok in H. unfold class_oki.
+    apply andb_true_iff in H. destruct H as [H H4]. apply andb_true_iff in H. destruct H as [H H3].
+    rewrite H, H3, H4. reflexivity.
+  Qed.
+
+  Lemma closed_oki_weaken : closed_oki = true -> closed_okw = true.
+  Proof.
+    unfold closed_oki, closed_okw. intros H. rewrite forallb_forall in *. intros x Hx. specialize (H x Hx).
+    destruct (find_class (wclasses w) x) as [c |]; [| discriminate]. unfold class_oki in H. unfold class_okw, init_okw.
+    apply andb_true_iff in H. destruct H as [H H4]. apply andb_true_iff in H. destruct H as [H H3].
+    rewrite H, H4. cbn [andb]. rewrite andb_true_r. apply orb_true_iff in H3. destruct H3 as [E | E]; rewrite E; [reflexivity |].
+    rewrite !orb_true_r. reflexivity.
+  Qed.
+
+  Lemma ids_class_oki : closed_oki = true ->
+    forall kid c, mem_ustr kid ids = true -> find_class (wclasses w) kid = Some c -> class_oki c = true.
+  Proof.
+    intros Hc kid c Hm Hf. unfold closed_oki in Hc. rewrite forallb_forall in Hc.
+    apply mem_ustr_In in Hm. specialize (Hc kid Hm). rewrite Hf in Hc. exact Hc.
+  Qed.
+
   Hypothesis Hclosed : closed_okw = true.
 
   Lemma ids_class_okw : forall kid c, mem_ustr kid ids = true -> find_class (wclasses w) kid = Some c -> class_okw c = true.
@@ -376,6 +409,12 @@ Section Knot.
        && jvalue_eqb (match g "pattern_type"%string with Some v => v | None => JNull end) (JStr (u "stix"))
        && negb (match g "pattern_version"%string with Some v => truthy v | None => false end)
     then aset (u "pattern_version") (JStr (u "2.1")) kw else kw.
+
+  Lemma ind_kw_plain : forall kw, plain_dict kw = true -> plain_dict (ind_kw kw) = true.
+  Proof.
+    intros kw Hp. unfold ind_kw. cbv zeta. match goal with |- context [if ?b then _ else _] => destruct b end; [| exact Hp].
+    apply plain_dict_aset; [exact Hp | reflexivity].
+  Qed.
 
   Definition init_expr (f : nat) (c : cls) (allow interop : bool) (kw : list (ustring * jvalue))
              (vrf : option (list (ustring * ustring))) : result pval :=
@@ -1032,6 +1071,14 @@ Fixpoint refine_ids (n : nat) (vr : variant) (w : world) (ids : list ustring) : 
   match n with O => ids | S k => refine_ids k vr w (keep_ok vr w ids) end.
 
 Definition proved_ids (vr : variant) (w : world) : list ustring := refine_ids 8 vr w (map cid (wclasses w)).
+
+Definition keep_oki (vr : variant) (w : world) (ids : list ustring) : list ustring :=
+  filter (fun cid0 => match find_class (wclasses w) cid0 with Some c => class_oki vr w ids c | None => false end) ids.
+
+Fixpoint refine_idsi (n : nat) (vr : variant) (w : world) (ids : list ustring) : list ustring :=
+  match n with O => ids | S k => refine_idsi k vr w (keep_oki vr w ids) end.
+
+Definition proved_idsi (vr : variant) (w : world) : list ustring := refine_idsi 8 vr w (map cid (wclasses w)).
 
 (* the same with the wrapping __init__ forms admitted (class_okw) *)
 Definition keep_okw (vr : variant) (w : world) (ids : list ustring) : list ustring :=
